@@ -580,3 +580,9 @@ func VHKeysValues() {
 	}
 	v.Assert(found == listed, "C01:keys-lists-exactly-the-live-keys")
 }
+
+// VHSnap: returned slices are snapshots, argument slices are copied, GetSortedValues leaves the container alone (C16).
+func VHSnap() {
+	c := VGSmall()
+	containers.VSnapStep(containers.VSnap{C: c, Keys: c.Keys, Mutate: []func(){c.Clear, func() { c.Put(v.Int("mk"), v.Int("mv")) }, func() { c.Remove(v.Int("mk")) }}})
+}
